@@ -58,6 +58,35 @@ func main() {
 		panic(err)
 	}
 	r := rand.New(rand.NewPCG(in.Seed, 0x20))
+	// ---- hashing at the block boundaries (k * rate, +-1), one-shot, split in two, and byte by byte ----
+	for _, rate := range []int{136, 104} {
+		for k := 1; k <= 3; k++ {
+			for _, d := range []int{-1, 0, 1} {
+				m := rb(r, k*rate+d)
+				emit("sha3_256", m, hash.NewSHA3_256().ComputeHash(m))
+				emit("sha3_384", m, hash.NewSHA3_384().ComputeHash(m))
+				emit("keccak_256", m, hash.NewKeccak_256().ComputeHash(m))
+				for hi, mk := range []func() hash.Hasher{hash.NewSHA3_256, hash.NewSHA3_384, hash.NewKeccak_256} {
+					name := []string{"sha3_256", "sha3_384", "keccak_256"}[hi]
+					h := mk()
+					_, _ = h.Write(m[:7])
+					_, _ = h.Write(m[7:])
+					emit(name, m, h.SumHash())
+					h = mk()
+					_, _ = h.Write(m)
+					emit(name, m, h.SumHash())
+					h = mk()
+					cut := rate
+					if cut > len(m) {
+						cut = len(m)
+					}
+					_, _ = h.Write(m[:cut])
+					_, _ = h.Write(m[cut:])
+					emit(name, m, h.SumHash())
+				}
+			}
+		}
+	}
 	for i := 0; i < in.N; i++ {
 		// ---- hashing ----
 		lens := []int{0, 1, 55, 56, 64, 103, 104, 105, 135, 136, 137, 272, 1000}
